@@ -127,6 +127,17 @@ def family(pool):
         fam.append({"kty": "RSA", "e": v, "n": "n"})
     # RFC 7638 section 3.1 example
     fam.append({"kty": "RSA", "n": "0vx7agoebGcQSuuPiLJXZptN9nndrQmbXEps2aiAFbWhM78LhWx4cbbfAAtVT86zwu1RK7aPFFxuhDR1L6tSoc_BJECPebWKRXjBZCiFV4n3oknjhMstn64tZ_2W-5JsGY4Hc5n9yBXArwl93lqt7_RN5w6Cf0h4QyQ5v-65YGjQR0_FDW2QvzqY368QQMicAtaSqzs8KJZgnYb9c7d0zgdAZHzu6qMQvRL5hajrn1n91CbOpbISD08qNLyrdkt-bFTWhAI4vMQFh6WeZu0fM4lFd2NcRwr3XPksINHaQ-G_xBniIqbw0Ls1jF44-csFCur-kEgU8awapJzKnqDKgw", "e": "AQAB", "alg": "RS256", "kid": "2011-04-29"})
+    # strings with an embedded NUL: the whole string is the member's value, in the thumbprint and in equality
+    for a_, b_ in (("a\u0000b", "a"), ("a\u0000", "a"), ("\u0000", "")):
+        fam.append({"kty": "oct", "k": a_})
+        fam.append({"kty": "oct", "k": b_})
+        fam.append({"kty": "EC", "crv": a_, "x": "x", "y": "y"})
+        fam.append({"kty": "EC", "crv": b_, "x": "x", "y": "y"})
+    # extra members that are named like the required / private members of ANOTHER key type: ignored like any other extra
+    o32, rsa_, ec_ = pool["oct-32"], pool["RSA-2048"], pool["EC-P256"]
+    fam.append(dict(o32, n=rsa_["n"], e="AQAB", crv="P-256", x="a", y="b", d="c"))
+    fam.append(dict(K.public(rsa_), k="AAAA", crv="P-256", x="a", y="b"))
+    fam.append(dict(K.public(ec_), k="AAAA", n="AQAB", e="AQAB"))
     fam += [{}, 5, None, "oct", [], {"kty": "bogus", "k": "a"}]
     return fam
 
@@ -139,7 +150,12 @@ def run(ctx):
     for k in fam:
         for alg in list(HASHES) + ["S999", "sha256", ""]:
             ops.append(("jwk.thp", {"jwk": k, "alg": alg}))
-    for k in [pool["oct-32"], pool["EC-P384"], {"kty": "oct"}, 5]:
+    # names of registered algorithms that are not hashes, other letter case, near misses: no thumbprint
+    for k in (pool["oct-32"], pool["EC-P256"]):
+        for alg in ("HS256", "A128GCM", "ES256", "ECDH", "DEF", "s256", "S256 ", "S25", "S2560", "SHA-256"):      # (the hash name is a C string in the API: no NUL variant)
+            ops.append(("jwk.thp", {"jwk": k, "alg": alg}))
+            ops.append(("jwk.thp_buf", {"jwk": k, "alg": alg, "len": 64}))
+    for k in [pool["oct-32"], pool["EC-P384"], pool["RSA-2048"], dict(pool["EC-P256"], kid="é\"\\", extra=[1]), {"kty": "oct"}, 5]:
         for alg in list(HASHES) + ["S999"]:
             for n in list(range(0, 71)) + [None, 1024]:
                 a = {"jwk": k, "alg": alg}
